@@ -134,22 +134,17 @@ fn to_text_changes(changes: Vec<TextDocumentContentChangeEvent>, text: String) -
     let mut temp_text = text;
     changes
         .into_iter()
-        .filter_map(|change| {
-            if let TextDocumentContentChangeEvent {
-                range: Some(range),
+        .map(|change| {
+            let TextDocumentContentChangeEvent { range, text, .. } = change;
+            let text_change = TextChange {
+                // a change without range replaces the whole document
+                range: range.map_or(0..temp_text.len(), |range| {
+                    as_index_range(&range, &temp_text)
+                }),
                 text,
-                ..
-            } = change
-            {
-                let text_change = TextChange {
-                    range: as_index_range(&range, &temp_text),
-                    text,
-                };
-                temp_text.replace_range(text_change.range.clone(), &text_change.text);
-                Some(text_change)
-            } else {
-                None
-            }
+            };
+            temp_text.replace_range(text_change.range.clone(), &text_change.text);
+            text_change
         })
         .collect()
 }
